@@ -198,35 +198,25 @@ let pr_trace (t : tev list) : string =
     String.concat ","
       (List.map (function TSeek o -> "s" ^ string_of_n o | TWrite d -> "w" ^ hex_of_bytes d | TRead k -> "r" ^ string_of_n k) t)
 
+let feeds_of (s : string) : (n * n list) list =
+  if s = "-" then []
+  else List.map (fun f -> match String.split_on_char '=' f with [ k; d ] -> (n_of_string k, bytes_of_hex d) | _ -> failwith "feed") (split_on ';' s)
+
 let run_clone toks =
   match toks with
-  | [ prior; cidx; oidx; fault; feeds ] ->
+  | [ prior; cidx; oidx; fault; seeds; arch ] ->
       let fault =
         if fault = "-" then None
         else match String.split_on_char ',' fault with [ k; t ] -> Some (n_of_string k, n_of_string t) | _ -> failwith "fault" in
-      let st0 = o_init (bytes_of_hex prior) fault in
-      let cidx = index_of cidx in
-      let ((st1, idx1), moved) =
-        if oidx = "N" then ((st0, cidx), N0)
-        else reorder_in_place st0 cidx (index_of (String.sub oidx 1 (String.length oidx - 1))) in
-      let feeds =
-        if feeds = "-" then []
-        else List.map (fun f -> match String.split_on_char '=' f with [ k; d ] -> (n_of_string k, bytes_of_hex d) | _ -> failwith "feed") (split_on ';' feeds) in
-      let st = ref st1 and idx = ref idx1 and fed = ref [] in
-      List.iter
-        (fun (k, d) ->
-          if (!st).o_err = None then begin
-            let ((st', idx'), cnt) = feed !st !idx k d in
-            st := st';
-            idx := idx';
-            if st'.o_err = None then fed := cnt :: !fed
-          end)
-        feeds;
-      (match (!st).o_err with
+      let oi = if oidx = "N" then None else Some (index_of (String.sub oidx 1 (String.length oidx - 1))) in
+      let r = clone_model (bytes_of_hex prior) fault (index_of cidx) oi (feeds_of seeds) (feeds_of arch) in
+      let st = r.cr_state in
+      (match st.o_err with
       | None ->
-          "OK " ^ string_of_n moved ^ " " ^ (if !fed = [] then "-" else pr_nlist (List.rev !fed)) ^ " " ^ hex_of_bytes (!st).o_file ^ " "
-          ^ pr_trace (!st).o_trace ^ " " ^ pr_index !idx
-      | Some _ -> "ERR " ^ hex_of_bytes (!st).o_file ^ " " ^ pr_trace (!st).o_trace)
+          "OK " ^ string_of_n r.cr_moved ^ " " ^ (if r.cr_fed = [] then "-" else pr_nlist r.cr_fed) ^ " "
+          ^ (if r.cr_fetch = [] then "-" else pr_nlist r.cr_fetch) ^ " " ^ hex_of_bytes st.o_file ^ " "
+          ^ pr_trace st.o_trace ^ " " ^ pr_index r.cr_index
+      | Some _ -> "ERR " ^ hex_of_bytes st.o_file ^ " " ^ pr_trace st.o_trace)
   | _ -> failwith "clone: bad case"
 
 let dispatch (line : string) : string =
